@@ -6,8 +6,8 @@ steps of other operations may run in
 between).
 
 The map step (`popInFlightMessage`) is the single decision point: whoever removes the id from the
-map — FIN, REQ, TOUCH or the timeout scan — has the object; every other contender fails and changes
-nothing. The C02 history theorems hold along every micro-step schedule, not only in the atomic
+map — FIN, REQ, TOUCH or the timeout scan — has the object; every other contender fails; a failing answer
+changes nothing, a failing scan only drops the stale heap entry it met. The C02 history theorems hold along every micro-step schedule, not only in the atomic
 model.
 
 Real-code witnesses of these windows (steered with the in-tree hooks, replayed by `./check C02`):
@@ -56,8 +56,9 @@ theorem winner_takes_it {s : MS} (h : Reachable s) {id : Nat} {op : Op} (hp : is
 
 /-- C02.7 — for every interleaving of FIN / REQ / TOUCH (of any connections) and timeout scans on
 one id, together with any other micro-steps, as long as the id is not pushed into the map again:
-at most one of the map pops succeeds — it gets the object; by `loser_answer_noop`,
-`foreign_answer_noop` and `loser_scan_noop` the others fail and change nothing. -/
+at most one of the map pops succeeds (this theorem states only that count). What the others do is the three
+lemmas above: a losing / foreign answer fails with the state equal (`loser_answer_noop`, `foreign_answer_noop`);
+a losing scan is refused and changes the state only by erasing the stale heap entry (`loser_scan_noop`). -/
 theorem map_pop_is_the_winner {s : MS} (h : Reachable s) (id : Nat) (ops : List Op)
     (hnp : ∀ op ∈ ops, isPushOf id op = false) : wins id s ops ≤ 1 :=
   wins_le_one (reachable_minv h) id ops hnp
